@@ -9,8 +9,9 @@ ids=$(python3 -c "import json;print(' '.join(c['property_id'] for c in json.load
 targets=""; bins=""
 for id in $ids; do
   lid=$(echo "$id" | tr 'A-Z' 'a-z')
-  targets="$targets Q1t.Props.$id drv_$lid"
-  bins="$bins --bin $lid"
+  [ -f "lean/Q1t/Props/$id.lean" ] && targets="$targets Q1t.Props.$id"
+  grep -q "name = \"drv_$lid\"" lean/lakefile.toml && targets="$targets drv_$lid"
+  [ -f "harness/src/bin/$lid.rs" ] && bins="$bins --bin $lid"
 done
 if [ -n "$targets" ]; then
   (cd lean && lake build $targets) || echo "setup: lake build reported errors (the affected checks will report them)"
